@@ -510,6 +510,8 @@ static int fault(int call)
   if (!budget_left(K_FAULT, vk_cfg.fault_bound)) return 0;
   if (vk_cfg.fault_calls && !(vk_cfg.fault_calls & (1ull << call))) return 0;
   const struct fault_menu *m = &fault_menus[call];
+  static const struct fault_menu waitpid_foreign = { 2, { EINTR, ECHILD } };
+  if (call == C_WAITPID && vk_cfg.foreign_reaper) m = &waitpid_foreign;
   if (m->n == 0) return 0;
   char label[12];
   snprintf(label, sizeof label, "%s%s", vk_side ? "c:" : "", vk_call_names[call]);
